@@ -686,6 +686,15 @@ impl Check for C03 {
                 segs.push((gen::seg_split2(k), "split2".into()));
             }
         }
+        // every 3-way split of very small streams
+        if body.len() > 2 && body.len() <= 40 {
+            ctx.counters.bump("streams_with_every_3way_split");
+            for a in 1..body.len() - 1 {
+                for b in a + 1..body.len() {
+                    segs.push((gen::seg_from_cuts(&[a, b]), "split3".into()));
+                }
+            }
+        }
         for (seg, name) in segs {
             if class == SizeClass::Huge && !gen::coarse_only(&name) {
                 continue;
@@ -732,7 +741,8 @@ impl Check for C03 {
         "one evaluation = one (abstract session, segmentation, flavour) triple driven through the real \
          connect/receive; sessions are generated from the run seed (0..8 responses: single / list / \
          error-after-k-frames, values and payloads from keyword-mimicking, empty, NUL, non-ASCII and \
-         > 4 KiB classes); distinct = distinct (session shape, stream size bucket, segmentation \
+         > 4 KiB classes); every 2-way split for bodies up to 96 B and every 3-way split up to 40 B; \
+         distinct = distinct (session shape, stream size bucket, segmentation \
          policy, flavour); non-trivial = session has at least one response".into()
     }
     fn assumptions(&self) -> Vec<String> {
@@ -1395,6 +1405,14 @@ impl Check for C02 {
                 segs.push((gen::seg_split2(k), "split2".into()));
             }
         }
+        if body.len() > 2 && body.len() <= 40 {
+            ctx.counters.bump("streams_with_every_3way_split");
+            for a in 1..body.len() - 1 {
+                for b in a + 1..body.len() {
+                    segs.push((gen::seg_from_cuts(&[a, b]), "split3".into()));
+                }
+            }
+        }
         for (seg, name) in segs {
             if class == SizeClass::Huge && !gen::coarse_only(&name) {
                 continue;
@@ -1447,7 +1465,8 @@ impl Check for C02 {
          [responses…, terminal] must equal that of the blocking connection fed the same bytes in one \
          read after the greeting; streams are well-formed sessions, their truncations, sessions hit by \
          flip/insert/delete/duplicate faults and token soup, from a few bytes to > 4096·2^3; every \
-         2-way split is executed for streams up to 256 B (quick) / 2 KiB (thorough); distinct = \
+         2-way split is executed for streams up to 256 B (quick) / 2 KiB (thorough) and every 3-way \
+         split for bodies up to 40 B; distinct = \
          distinct (stream kind, size bucket, segmentation policy, flavour, reference terminal kind, \
          response count ≤ 8); non-trivial = stream has bytes after the greeting".into()
     }
